@@ -341,3 +341,73 @@ func TestC17NIP11(t *testing.T) {
 		col.Case(nontrivial, hx.JSON(desc), func() any { return desc })
 	})
 }
+
+// TestC17ClockAcrossSessions: the created_at limits are judged against the clock at the time
+// of the message, also on a handler that has been in service for a while and has already
+// seen connections come and go. One first session per middleware, a pause of a few seconds,
+// then events two seconds inside and two seconds outside each limit.
+func TestC17ClockAcrossSessions(t *testing.T) {
+	col := ev.For("C17").SetRule(c17Rule)
+	const L, U = 100, 100
+	type variant struct {
+		name string
+		mw   mocrelay.Middleware
+		rig  *Rig
+	}
+	vs := []*variant{
+		{name: "lower", mw: mocrelay.Middleware(mocrelay.NewCreatedAtLowerLimitMiddleware(L))},
+		{name: "upper", mw: mocrelay.Middleware(mocrelay.NewCreatedAtUpperLimitMiddleware(U))},
+		{name: "window", mw: mocrelay.Middleware(mocrelay.NewEventCreatedAtMiddleware(-L*time.Second, U*time.Second))},
+		{name: "nip11", mw: mocrelay.BuildMiddlewareFromNIP11(&mocrelay.NIP11{Limitation: &mocrelay.NIP11Limitation{CreatedAtLowerLimit: L, CreatedAtUpperLimit: U}})},
+	}
+	mk := func(off int64) *mocrelay.ClientEventMsg {
+		e := &mocrelay.Event{Pubkey: gen.Keys[0].Pub, Kind: 1, CreatedAt: time.Now().Unix() + off, Tags: []mocrelay.Tag{}, Content: fmt.Sprint("clock ", off)}
+		gen.Seal(e)
+		return &mocrelay.ClientEventMsg{Event: e}
+	}
+	for _, v := range vs {
+		mw := v.mw
+		v.rig = NewRig(func(h mocrelay.Handler) mocrelay.Handler { return mw(h) })
+		s, err := v.rig.Start()
+		if err != nil {
+			t.Fatalf("%s: %v", v.name, err)
+		}
+		if fwd, _, err := s.Step(mk(0)); err != nil || len(fwd) != 1 {
+			hx.Fail(t, ev.Failure{Property: "C17", Signature: "conforming-not-forwarded", Clause: "an event created now respects every created_at limit", Case: v.name, Observed: fmt.Sprint(err, len(fwd))})
+		}
+		s.End()
+	}
+	time.Sleep(3300 * time.Millisecond)
+	for _, v := range vs {
+		s, err := v.rig.Start()
+		if err != nil {
+			t.Fatalf("%s: %v", v.name, err)
+		}
+		for _, c := range []struct {
+			off  int64
+			pass bool
+			side string
+		}{{-L + 2, true, "lower"}, {-L - 2, false, "lower"}, {U - 2, true, "upper"}, {U + 2, false, "upper"}} {
+			if v.name != "window" && v.name != "nip11" && v.name != c.side {
+				continue
+			}
+			msg := mk(c.off)
+			fwd, replies, err := s.Step(msg)
+			desc := map[string]any{"middleware": v.name, "limit_seconds": L, "created_at_offset_from_now": c.off, "handler_in_service_for": "3.3 s, one earlier session"}
+			if err != nil {
+				hx.Fail(t, ev.Failure{Property: "C17", Signature: "client-msg-stalled", Clause: "the stack keeps processing messages", Case: desc, Observed: err.Error()})
+			}
+			if c.pass && (len(fwd) != 1 || fwd[0] != msg || len(replies) != 0) {
+				hx.Fail(t, ev.Failure{Property: "C17", Signature: "conforming-not-forwarded", Clause: "a client message that respects the created_at limit is forwarded unchanged (judged against the current time, two seconds inside the limit)",
+					Case: desc, Observed: fmt.Sprintf("forwarded=%s replies=%s", hx.JSON(briefClients(fwd)), hx.JSON(briefServers(replies)))})
+			}
+			if !c.pass && (len(fwd) != 0 || len(replies) != 1 || !rejectionFor(msg, replies[0])) {
+				hx.Fail(t, ev.Failure{Property: "C17", Signature: "offending-not-rejected", Clause: "a client message beyond the created_at limit is answered by one rejection and not forwarded (judged against the current time, two seconds outside the limit)",
+					Case: desc, Observed: fmt.Sprintf("forwarded=%s replies=%s", hx.JSON(briefClients(fwd)), hx.JSON(briefServers(replies)))})
+			}
+			col.Label("clock:second-session-" + v.name)
+			col.Case(true, fmt.Sprint(v.name, c.off), func() any { return desc })
+		}
+		s.End()
+	}
+}
